@@ -208,8 +208,10 @@ P('C16', claimed=True, level='other',
   level_note=('The allocator invariant ties an index array, a dict of sets and two cursors through four '
               'loops: bounded only. Bit operations modelled arithmetically with a disjointness side condition.'))
 
-P('C17', claimed=True, level='exploration', drivers=['vf.drivers.C17'],
-  level_text=('Every message emitted at the single OSC choke point during histories of client-object '
+P('C17', claimed=True, level='other', contracts=['base_netaddr_bind'], drivers=['vf.drivers.C17'],
+  level_text=('BundleNetAddr.__exit__ is proved to send the collected bundle iff the block did not raise '
+              '(any exception class). '
+              'Every message emitted at the single OSC choke point during histories of client-object '
               'operations is checked against grammars written from the Server Command Reference, for '
               'ownership of the ids it mentions, creation/free pairing and bind() atomicity.'),
   level_note='Bounded: ~38k histories quick. The command emitters build argument lists dynamically: outside the provable subset.',
